@@ -578,7 +578,12 @@ class _Frame:
     def s_AugAssign(self, st):
         cur = self.ev(_load(st.target))
         v = self.ev(st.value)
-        res = self.binop(type(st.op), cur, v, st)
+        try:
+            res = self.binop(type(st.op), cur, v, st)
+        except XArrayError as e:
+            if "do not broadcast" in str(e):
+                raise XRaise("ValueError", f"operands could not be broadcast together ({e})")
+            raise
         if isinstance(cur, XArray) and isinstance(res, XArray) and res.shape == cur.shape and not isinstance(st.target, ast.Subscript) and not isinstance(st.op, ast.MatMult):
             # numpy semantics: `a += b` on an ndarray writes INTO a (every other name bound to that array sees the change)
             try:
@@ -899,7 +904,12 @@ class _Frame:
             # a magnitude written in the source (block / buffer / batch size): re-interpreted at another scale
             v = self.binop(type(n.op), self.ev(n.left), self.ev(n.right), n)
             return sl(v) if type(v) is int else v
-        return self.binop(type(n.op), self.ev(n.left), self.ev(n.right), n)
+        try:
+            return self.binop(type(n.op), self.ev(n.left), self.ev(n.right), n)
+        except XArrayError as e:
+            if "do not broadcast" in str(e):
+                raise XRaise("ValueError", f"operands could not be broadcast together ({e})")  # numpy raises here too
+            raise
 
     _DUNDER = {ast.Add: "add", ast.Sub: "sub", ast.Mult: "mul", ast.Div: "truediv", ast.MatMult: "matmul", ast.Pow: "pow"}
 
@@ -1246,7 +1256,7 @@ class _Frame:
         if attr.startswith("__") and not attr.endswith("__") and cls_ctx is not None:
             name = cls_ctx.mangle(attr)
         if name == "__dict__":
-            return obj.attrs
+            return obj.attrs["__dict__"] if isinstance(obj.attrs.get("__dict__"), dict) else obj.attrs
         if getattr(self.I, "model_descriptors", False) and not name.startswith("__"):
             d = self.I.descriptor_for(obj.cls, name)
             if d is not None:
